@@ -80,6 +80,29 @@ def r_drop():
                *bundle(), m("close_run"))
 
 
+def rw_plan(n_off, ckpt_in, n_on, ckpt_after, pre=1):
+    """bundles saved under `rewindable False`, then `rewindable True`, then more points before the next checkpoint"""
+    body = [m("open_run"), m("checkpoint")]
+    for _ in range(pre):
+        body += bundle()
+    body.append(m("rewindable", None, [False]))
+    for i in range(n_off):
+        body += bundle()
+        if ckpt_in and i == 0:
+            body.append(m("checkpoint"))
+    body.append(m("rewindable", None, [True]))
+    for _ in range(n_on):
+        body += bundle()
+    if ckpt_after:
+        body.append(m("checkpoint"))
+    body += bundle()
+    body += [m("null"), m("close_run")]
+    return seq(*body)
+
+
+RW_VARIANTS = [(1, False, 1, False, 1), (2, False, 1, False, 1), (1, True, 1, False, 1), (2, True, 2, True, 1),
+               (1, False, 2, True, 0), (2, False, 1, False, 0), (1, False, 1, False, 2)]
+
 REWIND = [r_two_streams, r_long, r_midbundle, r_drop]
 
 
@@ -180,6 +203,20 @@ def gen(rng, tier):
             if thorough or at % 2 == 0:
                 out.append(base(plan, inject=[{"at": at, "req": "pause"}, {"at": at + 3, "req": "pause"}], script=["resume", "resume"],
                                 record_interruptions=True, tag="dr%d pause@%d+pause" % (ti, at)))
+    # non-rewindable sections with saved points, then rewinding switched back on, then an interruption before the next checkpoint
+    for vi, var in enumerate(RW_VARIANTS):
+        plan = rw_plan(*var)
+        n = count_msgs(plan) + 3
+        out.append(base(plan, tag="dw%d plain" % vi))
+        for at in range(3, n + 1):
+            out.append(base(plan, inject=[{"at": at, "req": "pause"}], script=["resume"], record_interruptions=at % 3 == 0,
+                            tag="dw%d pause@%d resume" % (vi, at)))
+            if thorough or at % 2 == 0:
+                out.append(base(plan, inject=[{"at": at, "req": "suspend"}, {"at": at + 2, "req": "release", "sid": 0}],
+                                tag="dw%d suspend@%d" % (vi, at)))
+            if thorough or at % 3 == 1:
+                out.append(base(plan, inject=[{"at": at, "req": "pause"}, {"at": at + 4, "req": "pause"}], script=["resume", "resume"],
+                                tag="dw%d 2pause@%d" % (vi, at)))
     # interruption records
     for ti, t in enumerate(INTRS):
         plan = t()
@@ -244,4 +281,102 @@ def gen(rng, tier):
                 inj.append({"at": at, "req": r})
         out.append(base(plan, inject=inj, script=[rng.choice(["resume", "resume", "resume", "abort", "stop", "halt"]) for _ in range(rng.randint(0, 4))],
                         record_interruptions=rng.random() < 0.5, tag="drandom"))
+    return out
+
+
+# ============================================================================= oracle-only families
+# Ingredients the engine model lacks (raising subscribers, monitors, statuses that outlive their call):
+# the cases carry "oracle_only" and are not sent to the model; the oracles of C01 / C02 judge them.
+
+def o_two_runs():
+    return seq(m("open_run"), m("checkpoint"), *bundle(), *bundle(), m("close_run"), m("null"),
+               m("open_run"), m("checkpoint"), *bundle(), m("close_run"))
+
+
+def o_left_open():
+    return seq(m("open_run"), m("checkpoint"), *bundle(), m("null"), m("null"))
+
+
+def o_keys():
+    return seq(m("open_run", run=A), m("open_run", run=B), m("checkpoint"), *bundle(run=A), *bundle(run=B),
+               m("close_run", run=A), m("close_run", run=B))
+
+
+def o_guarded():
+    # the plan survives the failing message and closes its run itself
+    return seq(["tryexc", seq(m("open_run"), m("checkpoint"), *bundle()), seq(m("null"))], m("null"),
+               ["tryexc", seq(m("close_run")), seq(m("null"))])
+
+
+def gen_subscribers(rng, tier):
+    """(a) a consumer raising on each document kind, exceptions not ignored / ignored"""
+    out = []
+    for pi, t in enumerate((o_two_runs, o_left_open, o_keys, o_guarded)):
+        plan = t()
+        for kind in ("start", "descriptor", "event", "stop"):
+            for nth in (0, 1):
+                for ign in (False, True):
+                    c = base(plan, sub_raise={"on": kind, "nth": nth, "ignore": ign}, oracle_only="docs",
+                             tag="os%d raise-%s#%d %s" % (pi, kind, nth, "ignored" if ign else "raised"))
+                    out.append(c)
+                    if nth == 0 and (tier == "thorough" or kind in ("start", "event")):
+                        out.append(dict(c, inject=[{"at": 6, "req": "pause"}], script=["resume"], tag=c["tag"] + " pause@6"))
+    return out
+
+
+def mon_plan(unmon, close, after):
+    body = [m("open_run"), m("checkpoint"), m("monitor", 1, [], {"name": "d1_monitor"}), m("null"), m("null"), *bundle(dev=2)]
+    if unmon:
+        body.append(m("unmonitor", 1))
+    if close:
+        body.append(["tryexc", seq(m("close_run")), seq(m("null"))])
+    body += [m("null")] * after
+    return seq(*body)
+
+
+def gen_monitors(rng, tier):
+    """(b) a monitored signal that keeps updating: during the run, after close_run, during a later call;
+       clear_sub() failing once at the first / second attempt"""
+    out = []
+    later = seq(m("null"), m("null"), m("null"), m("null"))
+    for unmon in (False, True):
+        for close in (True, False):
+            plan = mon_plan(unmon, close, 3)
+            n = count_msgs(plan) + 2
+            for fault in (None, 0, 1):
+                faults = [] if fault is None else [[1, "clear_sub", fault, "EDev"]]
+                ups = range(3, n + 6) if tier == "thorough" else range(3, n + 6, 2)
+                for at in ups:
+                    inj = [{"at": at, "req": "update", "dev": 1}, {"at": at + 2, "req": "update", "dev": 1}]
+                    out.append({"calls": [plan, later], "devs": DEVS, "inject": inj, "script": [], "faults": faults,
+                                "oracle_only": "docs", "tag": "om u%d c%d f%s update@%d" % (unmon, close, fault, at)})
+                # an update in every step of both calls
+                out.append({"calls": [plan, later], "devs": DEVS, "inject": [{"at": k, "req": "update", "dev": 1} for k in range(2, n + 8)],
+                            "script": [], "faults": faults, "oracle_only": "docs", "tag": "om u%d c%d f%s update-all" % (unmon, close, fault)})
+                out.append({"calls": [plan, later], "devs": DEVS, "inject": [{"at": 7, "req": "pause"}] + [{"at": k, "req": "update", "dev": 1} for k in range(5, n + 8, 2)],
+                            "script": ["resume"], "faults": faults, "oracle_only": "docs", "tag": "om u%d c%d f%s pause+updates" % (unmon, close, fault)})
+    return out
+
+
+def gen_crosscall(rng, tier):
+    """(c) a status created by call 1 and left pending fails (or succeeds) while call 2 runs"""
+    out = []
+    firsts = [seq(m("set", 1, [1], {"group": "g"})),
+              seq(m("open_run"), m("set", 1, [1], {"group": "g"}), m("trigger", 2, [], {"group": "t"}), m("close_run"))]
+    seconds = [seq(m("open_run"), m("checkpoint"), m("null"), m("null"), m("null"), m("null"), m("null")),
+               seq(m("open_run"), m("checkpoint"), *bundle(), m("null"), m("null"), m("close_run")),
+               seq(m("open_run"), m("checkpoint"), m("set", 1, [2], {"group": "h"}), m("null"), m("null"), m("wait", None, [], {"group": "h"}), m("null"))]
+    for fi, p1 in enumerate(firsts):
+        n1 = count_msgs(p1) + 2
+        for si, p2 in enumerate(seconds):
+            n2 = count_msgs(p2) + 2
+            for ok in (False, True):
+                for at in range(1, n1 + n2 + 1):
+                    inj = [{"at": at, "req": "status", "sid": 0, "ok": ok}]
+                    if si == 2:
+                        # call 2's own status (the last one created) is finished successfully so that its wait ends
+                        own = 1 if fi == 0 else 2
+                        inj.append({"at": n1 + 6, "req": "status", "sid": own, "ok": True})
+                    out.append({"calls": [p1, p2], "devs": DEVS, "inject": inj, "script": [], "status_mode": "manual",
+                                "oracle_only": "calls", "tag": "oc f%d s%d status-%s@%d" % (fi, si, ok, at)})
     return out
